@@ -153,9 +153,9 @@ theorem Inv.sess_bounds {cfg : Cfg} {s : St} {d : Disk} (h : Inv cfg s d) (hph :
         have := (holds_some hman.2.2 hparts.cur).2
         exact ofE (hlast _ this)
       case sync =>
-        have := (holds_some hman.2 hparts.cur).2
+        have := (holds_some hman.2.1 hparts.cur).2
         rw [hparts.hv0] at this
-        have hm : Mirror s v0 := this
+        have hm : Mirror s v0 := this.1
         exact ⟨mf, 0, v0, hparts.cur, Nat.zero_le _, hparts.hv0, Nat.le_of_eq hm.2.1.symm, Nat.le_of_eq hm.2.2.symm⟩
       case install => exact ofE (ofS _ hman.2)
       case rmJ => exact ofL (ofS _ hman.2.1)
@@ -207,8 +207,8 @@ theorem JobOK.rotate {cfg : Cfg} {s : St} {d : Disk} {j : Job} (h : JobOK cfg s 
         refine ⟨a, b, Nat.lt_succ_of_lt c, e'.imp (fun mf hmf => hmf.imp (fun r hr => ?_))⟩
         exact ⟨hr.1.trans (by simp [snapshotRec]), hr.2.1, Nat.le_succ_of_le hr.2.2.1, hr.2.2.2⟩
       · -- sync
-        obtain ⟨a, b⟩ := h3
-        refine ⟨a, b.imp (fun mf hmf => ⟨hmf.1.imp (fun r hr => ⟨hr.1, Nat.le_succ_of_le hr.2⟩), hmf.2⟩)⟩
+        obtain ⟨a, b, c⟩ := h3
+        refine ⟨a, b.imp (fun mf hmf => ⟨hmf.1.imp (fun r hr => ⟨hr.1, Nat.le_succ_of_le hr.2⟩), hmf.2⟩), c⟩
   · unfold MkJournalOK; rw [hmk]; trivial
   · refine h9.imp (fun v hv => ?_)
     unfold RemovalsOK at hv ⊢
@@ -444,7 +444,7 @@ theorem inv_flushStart {cfg : Cfg} {s : St} {d : Disk} (h : Inv cfg s d) {s' : S
           · apply frozenOK_iff.2
             refine Or.inr ⟨fz, jf, hfz, hjf, f1, f2, f3, f4, f5, ?_⟩
             intro hn
-            exact absurd hn (by unfold FlushPending; simp [Holds', JPc.beforeCommit])
+            exact absurd hn (by unfold FlushPending; simp [Holds', JPc.uninstalled, JPc.beforeCommit])
         · intro hc; rw [hph] at hc; cases hc
         · intro hc; rw [hph] at hc; cases hc
         · show JobOK cfg _ d _
